@@ -28,7 +28,7 @@ var R = hx.NewRecorder("C16", "cases = histories (rapid state machine) of up to 
 	"oracle = model of what must / must not / may resume; DidResume equal on both ends; a resumed GMSSL connection must decode under the ORIGINAL master secret with the new randoms (independent passive decoder), keep version, suite and peer certificates; a non-resumed one must be a full handshake; data round trip after every connection; non-trivial = a connection that offered a ticket; distinct by hash of the history")
 
 func TestMain(m *testing.M) {
-	R.Require("version_changed", "ticket_opened", "ekm_reference", "original_master_proved", "resumed_gm", "resumed_tls", "rotated_old_key_accepted", "rotated_dropped", "tampered", "evicted", "policy_now_forbids_certs", "policy_now_requires_certs", "tickets_disabled", "server_switched", "suite_removed", "must_resume", "must_not_resume")
+	R.Require("version_changed", "ticket_opened", "ekm_reference", "original_master_proved", "resumed_gm", "resumed_tls", "rotated_old_key_accepted", "rotated_dropped", "tampered", "evicted", "policy_now_forbids_certs", "policy_now_requires_certs", "policy_now_verifies_untrusted_cert:gm=true", "policy_now_verifies_untrusted_cert:gm=false", "resumed_identity_verified:gm=true", "resumed_identity_verified:gm=false", "tickets_disabled", "server_switched", "suite_removed", "must_resume", "must_not_resume")
 	hx.Main(m, R)
 }
 
@@ -119,6 +119,9 @@ func TestC16_Histories(t *testing.T) {
 		gm := rapid.Bool().Draw(t, "gmssl")
 		cacheCap := rapid.IntRange(1, 3).Draw(t, "cacheCap")
 		withClientCert := rapid.Bool().Draw(t, "clientHasCert")
+		// one history in three of those with a client certificate: the certificate does not chain to the server's ClientCAs
+		// (acceptable under the requesting policies, not under the verifying ones)
+		certUntrusted := withClientCert && gen.OneIn(t, "clientCertUntrusted", 3)
 		suiteChoices := []uint16{tlsx.GMECCSM4CBCSM3, tlsx.GMECCSM4GCMSM3}
 		if !gm {
 			suiteChoices = []uint16{0xc02f, 0xc014, 0xcca8}
@@ -134,6 +137,10 @@ func TestC16_Histories(t *testing.T) {
 		}
 		srv[0].clientAuth = gmtls.ClientAuthType(gen.Uniform(t, "auth0", 5))
 		srv[1].clientAuth = gmtls.ClientAuthType(gen.Uniform(t, "auth1", 5))
+		if certUntrusted {
+			// sessions can only come into being under the policies that take any certificate
+			srv[0].clientAuth = gmtls.ClientAuthType(1 + gen.Uniform(t, "auth0u", 2))
+		}
 		nextKey := 2
 		conns := 0
 		var hist []string
@@ -172,6 +179,16 @@ func TestC16_Histories(t *testing.T) {
 			sc.CipherSuites = s.suites
 			sc.ClientAuth = s.clientAuth
 			sc.ClientCAs = p.RootsAll
+			if certUntrusted {
+				sc.ClientCAs = p.RootsStd
+				if !gm {
+					sc.ClientCAs = p.RootsSM2
+				}
+				// (the client offers its certificate whatever authorities the request names)
+				held := cc.Certificates[0]
+				cc.GetClientCertificate = func(*gmtls.CertificateRequestInfo) (*gmtls.Certificate, error) { return &held, nil }
+			}
+			verifying := s.clientAuth == gmtls.VerifyClientCertIfGiven || s.clientAuth == gmtls.RequireAndVerifyClientCert
 			// ---- model: what will the client offer, what may the server do
 			cached := model.get(name)
 			verdict := "either"
@@ -189,6 +206,8 @@ func TestC16_Histories(t *testing.T) {
 				verdict, why = "must_not", "issuing key no longer configured"
 			case s.suites != nil && !contains(s.suites, cached.suite):
 				verdict, why = "must_not", "suite no longer supported by the server"
+			case cached.hadClientCert && certUntrusted && verifying:
+				verdict, why = "must_not", "the session's client certificate does not verify under the policy now in force"
 			case cached.hadClientCert && s.clientAuth == gmtls.NoClientCert:
 				verdict, why = "must_not", "session carries client certificates, policy now forbids them"
 			case !cached.hadClientCert && (s.clientAuth == gmtls.RequireAnyClientCert || s.clientAuth == gmtls.RequireAndVerifyClientCert):
@@ -201,6 +220,13 @@ func TestC16_Histories(t *testing.T) {
 			// a client without a certificate cannot satisfy a requiring policy: the connection itself must fail
 			needCert := s.clientAuth == gmtls.RequireAnyClientCert || s.clientAuth == gmtls.RequireAndVerifyClientCert
 			expectFail := needCert && !withClientCert && verdict != "must"
+			resumeOrFail := false
+			if certUntrusted && verifying && verdict != "must" {
+				// a full handshake is out (the certificate is offered and does not verify); a session that carries the
+				// certificate may not be resumed either; one without it may (verdict "either": resumed, or failed)
+				expectFail = true
+				resumeOrFail = verdict == "either"
+			}
 			if !gm && s.maxVers < 0x0303 && s.suites != nil && !contains(s.suites, 0xc014) {
 				expectFail = true // no configured suite is usable below TLS 1.2
 			}
@@ -212,6 +238,9 @@ func TestC16_Histories(t *testing.T) {
 				t.Fatalf("endpoint panicked\n%s", desc)
 			}
 			cok, sok := r.Client.HSErr == nil, r.Server.HSErr == nil
+			if expectFail && resumeOrFail && cok && sok && r.Client.State.DidResume && r.Server.State.DidResume {
+				expectFail = false
+			}
 			if expectFail {
 				if cok && sok {
 					t.Fatalf("connection completed although the configurations admit no full handshake and the session may not be resumed\n%s", desc)
@@ -219,6 +248,12 @@ func TestC16_Histories(t *testing.T) {
 				if cached != nil && strings.HasPrefix(why, "policy now requires") {
 					offered++
 					classes["policy_now_requires_certs"] = true
+					classes["must_not_resume"] = true
+				}
+				if cached != nil && strings.HasPrefix(why, "the session's client certificate") {
+					offered++
+					classes["policy_now_verifies_untrusted_cert"] = true
+					classes[fmt.Sprintf("policy_now_verifies_untrusted_cert:gm=%v", gm)] = true
 					classes["must_not_resume"] = true
 				}
 				return
@@ -232,6 +267,15 @@ func TestC16_Histories(t *testing.T) {
 			}
 			if !bytes.Equal(r.Server.Received, payloadC) || !bytes.Equal(r.Client.Received, payloadS) {
 				t.Fatalf("data not delivered intact after the handshake (resumed=%v)\n%s", cs.DidResume, desc)
+			}
+			if len(ss.PeerCertificates) > 0 && verifying {
+				// the identity a server reports under a verifying policy is a verified one, resumed or not
+				if len(ss.VerifiedChains) == 0 {
+					t.Fatalf("the server reports a client certificate under a verifying policy without any verified chain (resumed=%v)\n%s", cs.DidResume, desc)
+				}
+				if cs.DidResume {
+					classes[fmt.Sprintf("resumed_identity_verified:gm=%v", gm)] = true
+				}
 			}
 			if cached != nil {
 				offered++
@@ -410,7 +454,7 @@ func TestC16_Histories(t *testing.T) {
 				cs := model.m[name]
 				s := srv[cs.server]
 				si := cs.server
-				switch k := rapid.SampledFrom([]string{"retire_oldest", "retire_oldest", "version", "rotate_keep", "rotate_drop", "disable", "remove_suite", "auth_conflict", "auth_compatible", "other_server"}).Draw(t, "change"); k {
+				switch k := rapid.SampledFrom([]string{"retire_oldest", "retire_oldest", "version", "rotate_keep", "rotate_drop", "disable", "remove_suite", "auth_conflict", "auth_verify", "auth_compatible", "other_server"}).Draw(t, "change"); k {
 				case "version":
 					if gm {
 						t.Skip("GMSSL has one version")
@@ -451,7 +495,11 @@ func TestC16_Histories(t *testing.T) {
 					} else {
 						s.clientAuth = gmtls.ClientAuthType(3 + gen.Uniform(t, "req", 2))
 					}
-				case "auth_compatible":
+				case "auth_verify":
+				// the policy now verifies what it only asked for before: a session carrying a certificate that chains to
+				// ClientCAs resumes with a verified identity, one carrying another certificate may not be resumed
+				s.clientAuth = gmtls.ClientAuthType(3 + gen.Uniform(t, "verifying", 2))
+			case "auth_compatible":
 					s.clientAuth = gmtls.ClientAuthType(1 + gen.Uniform(t, "compat", 2))
 				case "other_server":
 					si = 1 - si
@@ -494,7 +542,7 @@ func TestC16_Histories(t *testing.T) {
 		for c := range classes {
 			cl = append(cl, c)
 		}
-		R.Case(offered > 0, hx.HashKey(fmt.Sprint(hist), gm, cacheCap, withClientCert), cl...)
+		R.Case(offered > 0, hx.HashKey(fmt.Sprint(hist), gm, cacheCap, withClientCert, certUntrusted), cl...)
 		R.Sample("history", map[string]interface{}{"gmssl": gm, "cache": cacheCap, "ops": hist})
 	})
 }
